@@ -202,7 +202,7 @@ func (s *orRuleSetLoader) makeTypeFromRuleSet() {
 	CompileBasic(&typ, false)
 
 	lex := s.node.BasisLexEventOfSchemaForNode()
-	name := s.rootSchema.AddUnnamedType(&typ, lex.File(), lex.Begin())
+	name := s.rootSchema.AddUnnamedType(&typ, lex.File(), 0)
 
 	c.AddNameWithASTNode(name, s.typeRoot.Type().String(), an)
 }
